@@ -259,6 +259,9 @@ func prepareRender(c J) (*renderSetup, error) {
 	if env == nil && (jbool(c, "weird") || jbool(c, "testenv")) {
 		env = map[string]any{}
 	}
+	if jbool(c, "bigenv") {
+		env = bigEnv()
+	}
 	if jbool(c, "weird") {
 		for k, v := range weirdEnv() {
 			if _, ok := env[k]; !ok {
